@@ -852,6 +852,73 @@ func ruleD6(w *world.World, r *report.RuleResult) {
 			}
 			return false
 		}
+		// the integers that reach the path argument of a file operation
+		var intLeaves func(v ssa.Value, depth int, seen map[ssa.Value]bool, out *[]ssa.Value)
+		intLeaves = func(v ssa.Value, depth int, seen map[ssa.Value]bool, out *[]ssa.Value) {
+			if v == nil || depth > 24 || seen[v] {
+				return
+			}
+			seen[v] = true
+			if b, ok := v.Type().Underlying().(*types.Basic); ok && b.Info()&types.IsInteger != 0 {
+				if _, isConst := v.(*ssa.Const); !isConst {
+					*out = append(*out, v)
+				}
+				return
+			}
+			switch x := v.(type) {
+			case *ssa.Call:
+				f := x.Call.StaticCallee()
+				if f == nil {
+					return
+				}
+				if world.InModule(f) && f.Blocks != nil {
+					for _, ret := range world.Returns(f) {
+						for _, rv := range world.RetVals(ret) {
+							intLeaves(rv, depth+1, seen, out)
+						}
+					}
+				}
+				for _, a := range x.Call.Args {
+					intLeaves(a, depth+1, seen, out)
+				}
+			case *ssa.Slice:
+				intLeaves(x.X, depth+1, seen, out)
+			case *ssa.MakeInterface:
+				intLeaves(x.X, depth+1, seen, out)
+			case *ssa.BinOp:
+				intLeaves(x.X, depth+1, seen, out)
+				intLeaves(x.Y, depth+1, seen, out)
+			case *ssa.Phi:
+				for _, e := range x.Edges {
+					intLeaves(e, depth+1, seen, out)
+				}
+			case *ssa.Convert:
+				intLeaves(x.X, depth+1, seen, out)
+			case *ssa.UnOp:
+				if x.Op == token.MUL {
+					intLeaves(x.X, depth+1, seen, out)
+				}
+			case *ssa.Alloc:
+				for _, ref := range *x.Referrers() {
+					switch y := ref.(type) {
+					case *ssa.Store:
+						if y.Addr == ssa.Value(x) {
+							intLeaves(y.Val, depth+1, seen, out)
+						}
+					case *ssa.IndexAddr:
+						for _, r2 := range *y.Referrers() {
+							if st, ok := r2.(*ssa.Store); ok {
+								intLeaves(st.Val, depth+1, seen, out)
+							}
+						}
+					}
+				}
+			case *ssa.Parameter:
+				for _, a := range constParamBind[x] {
+					intLeaves(a, depth+1, seen, out)
+				}
+			}
+		}
 		n := 0
 		for _, fn := range append([]*ssa.Function{ts}, ts.AnonFuncs...) {
 			for _, cl := range world.Calls(fn) {
@@ -863,39 +930,20 @@ func ruleD6(w *world.World, r *report.RuleResult) {
 				if f == nil {
 					continue
 				}
-				var nums []ssa.Value
-				switch n := f.String(); {
-				case n == "fmt.Sprintf" || n == "fmt.Sprint":
-					// variadic: the numbers stored into the argument array
-					for _, a := range call.Call.Args {
-						if sl, ok := a.(*ssa.Slice); ok {
-							if al, ok := sl.X.(*ssa.Alloc); ok {
-								for _, ref := range *al.Referrers() {
-									if ia, ok := ref.(*ssa.IndexAddr); ok {
-										for _, r2 := range *ia.Referrers() {
-											if st, ok := r2.(*ssa.Store); ok {
-												if mi, ok := st.Val.(*ssa.MakeInterface); ok {
-													if b, ok := mi.X.Type().Underlying().(*types.Basic); ok && b.Info()&types.IsInteger != 0 {
-														nums = append(nums, mi.X)
-													}
-												}
-											}
-										}
-									}
-								}
-							}
-						}
-					}
-				case strings.HasPrefix(n, "strconv.Format") || n == "strconv.Itoa":
-					nums = append(nums, call.Call.Args[0])
+				switch f.String() {
+				case "os.MkdirAll", "os.Mkdir", "os.Create", "os.OpenFile", "os.WriteFile":
+				default:
+					continue
 				}
+				var nums []ssa.Value
+				intLeaves(call.Call.Args[0], 0, map[ssa.Value]bool{}, &nums)
 				for _, x := range nums {
 					n++
 					key := fmt.Sprintf("%s|j:fresh-snapshot-directory#%d", fname, n)
 					if mayBeManifest(x, map[ssa.Value]bool{}) {
-						r.Fail(key, w.InstrPos(call), "the number the new snapshot's directory is named after can be the time recorded in the current manifest: the attempt then opens the last good snapshot's state file with O_TRUNC and rewrites it in place - a crash or a failed write leaves the manifest naming an empty or partial file, and a failure at the manifest stage has already replaced the previous snapshot although the attempt reports an error")
+						r.Fail(key, w.InstrPos(call), "the number in the path this attempt creates or opens for writing can be the time recorded in the current manifest: the attempt then opens the last good snapshot's state file with O_TRUNC and rewrites it in place - a crash or a failed write leaves the manifest naming an empty or partial file, and a failure at the manifest stage has already replaced the previous snapshot although the attempt reports an error")
 					} else {
-						r.OK(key, w.InstrPos(call), "the snapshot directory is named after this attempt's own time")
+						r.OK(key, w.InstrPos(call), "the path is named after this attempt's own time")
 					}
 				}
 			}
